@@ -294,7 +294,7 @@ class Run:
     def _violation(self, kind, signature, what, replay):
         if any(v['signature'] == signature for v in self.violations):
             return
-        if len(self.violations) >= 5:
+        if len(self.violations) >= int(os.environ.get('VERIF_MAX_VIOLATIONS', '5')):
             return
         rdir = VERIF / 'replays'
         rdir.mkdir(exist_ok=True)
